@@ -298,56 +298,89 @@ def check_operands(ctx, lib, table):
                 want = f"lbp(Token::{exp[1]})"
             ctx.check(ok, rule, f"{fn}->{callee}", f"{fn}: {callee}() is called with {want} (found {sorted(map(str, got))})",
                       t["span"]["s"])
-    # per-arm rows of led / nud
+    # rows of led / nud, decided per kind of the consumed token (29 cases each): which operand parses lie on the path and
+    # with which power — whatever the dispatch is written as (one match, helper lookups such as `comparator_of(&token)`,
+    # a shared `operand_of(&token)`)
+    from ..decision import Undecided, Walker
+    from .c10 import promoted_variant
+    OPERAND_CALLS = (P + "expr", P + "parse_dot", P + "projection_rhs")
     for fn, own, zero in (("led", LED_OWN, {}), ("nud", NUD_OWN, NUD_ZERO)):
         b = ctx.fn(P + fn, rule=rule)
         if b is None:
             continue
         o = Origins(b, lib)
-        br = Branches(b, o)
-        blk, ve = first_discr_switch(b, br, TOKEN)
-        if ve is None:
-            ctx.missing(rule, f"{fn}:switch", f"{fn} does not dispatch on the consumed token")
-            continue
-        consumed_ok = all(
-            t[0] == "field" and t[2] == "1" and t[1][0] == "call" and t[1][1] == P + "advance_with_pos"
-            for t in ve["scrutinee"]
-        )
-        ctx.check(consumed_ok, rule, f"{fn}:scrutinee",
-                  f"{fn} dispatches on the token it just consumed ({fmt_terms(ve['scrutinee'])})", b.span)
-        seen_sites = set()
-        for variant, callee in list(own.items()) + list(zero.items()):
-            if variant not in ve["edges"]:
-                ctx.bad(rule, f"{fn}:{variant}", f"{fn} has no arm for {variant}", b.span)
+
+        def consumed(x):
+            x = strip_through(x)
+            return x[0] == "field" and x[2] == "1" and x[1][0] == "call" and x[1][1] == P + "advance_with_pos"
+        adv = [t for _, t in b.calls() if t["callee"] == P + "advance_with_pos"]
+        ctx.check(len(adv) == 1, rule, f"{fn}:scrutinee", f"{fn} consumes exactly one token itself and dispatches on it ({len(adv)} advance_with_pos calls)", b.span)
+        for K in ALL_TOKENS:
+            def atom(t, K=K):
+                if t[0] == "discr" and consumed(t[1]):
+                    return K
+                return None
+
+            def call(t, argvals, K=K):
+                if t[1] == "lexer::Token::lbp" and t[2] and t[2][0]:
+                    vals = set()
+                    for x in t[2][0]:
+                        if consumed(x):
+                            vals.add(table[K])
+                        elif x[0] == "promoted":
+                            v = promoted_variant(lib, b, x[1], TOKEN)
+                            vals.add(table.get(v) if v else None)
+                        elif x[0] == "agg" and x[1].startswith(TOKEN + "::"):
+                            vals.add(table.get(x[1].split("::")[-1]))
+                        else:
+                            vals.add(None)
+                    return next(iter(vals)) if len(vals) == 1 else None
+                if t[1] in ("std::cmp::PartialEq::eq", "std::cmp::PartialEq::ne") and len(t[2]) == 2:
+                    sides = [set(a_) for a_ in t[2]]
+                    ck = [sd for sd in sides if sd and all(consumed(x) for x in sd)]
+                    pr = [sd for sd in sides if sd and all(x[0] == "promoted" for x in sd)]
+                    if len(ck) == 1 and len(pr) == 1:
+                        vs = {promoted_variant(lib, b, x[1], TOKEN) for x in pr[0]}
+                        if len(vs) == 1 and None not in vs:
+                            r = int(next(iter(vs)) == K)
+                            return r if t[1].endswith("::eq") else 1 - r
+                return None
+            w = Walker(b, o, atom=atom, call=call, max_steps=6000, cut_loops=True)
+            try:
+                paths = w.walk()
+            except Undecided as e:
+                ctx.bad(rule, f"{fn}:{K}", f"{fn} with consumed token {K}: undecidable ({e})", b.span)
                 continue
-            start = ve["edges"][variant]
-            sites = [(bb, t) for bb, t in b.calls()
-                     if t["callee"] == P + callee and edge_dominates(b, (blk, start), bb)]
-            if len(sites) != 1:
-                ctx.bad(rule, f"{fn}:{variant}", f"{fn}/{variant}: expected one {callee}() call in the arm, found {len(sites)}", b.span)
-                continue
-            bb, t = sites[0]
-            seen_sites.add(bb)
-            n_sites += 1
-            terms = o.of_operand(t["args"][1])
-            if variant in zero:
-                ok = terms == {("const", 0)}
-                want = "the constant 0"
+            seqs = set()
+            for path, leaf in paths:
+                po = Origins(b, lib, only_blocks=set(path))
+                saved, w.o = w.o, po
+                seq = []
+                try:
+                    for x in path:
+                        t = b.blocks[x]["term"]
+                        if t["k"] == "call" and t["callee"] in OPERAND_CALLS:
+                            try:
+                                pw = w.eval_terms(po.of_operand(t["args"][1]))
+                            except Undecided:
+                                pw = None
+                            seq.append((t["callee"][len(P):], pw))
+                finally:
+                    w.o = saved
+                seqs.add(tuple(seq))
+            if K in own or K in zero:
+                callee = own.get(K) or zero.get(K)
+                wantp = table[K] if K in own else 0
+                n_sites += 1
+                # (a Dot followed by '*' is the object wildcard: no operand parse on that path)
+                good = {s_ for s_ in seqs if s_} == {((callee, wantp),)}
+                ctx.check(good, rule, f"{fn}:{K}",
+                          f"{fn}/{K}: {callee}() is called once with " + (f"lbp of the operator just consumed ({K}) = {wantp}" if K in own else "the constant 0") +
+                          f" (found {sorted(seqs)})", b.span)
             else:
-                # lbp(consumed token) — in this arm the consumed token is `variant`
-                ok = all(
-                    x[0] == "call" and x[1] == "lexer::Token::lbp" and
-                    all(y in ve["scrutinee"] or token_of_terms(lib, b, [y]) == variant for y in x[2][0])
-                    for x in terms
-                ) and bool(terms)
-                want = f"lbp of the operator just consumed ({variant})"
-            ctx.check(ok, rule, f"{fn}:{variant}", f"{fn}/{variant}: {callee}() is called with {want} (found {fmt_terms(terms)})",
-                      t["span"]["s"])
-        # no other direct expr/parse_dot/projection_rhs calls in led/nud beyond those rows
-        for bb, t in b.calls():
-            if t["callee"] in (P + "expr", P + "parse_dot", P + "projection_rhs") and bb not in seen_sites:
-                ctx.bad(rule, f"{fn}:unlisted@{t['callee'].split('::')[-1]}",
-                        f"{fn} contains an operand parse that is not in the documented table", t["span"]["s"])
+                extra = sorted(s_ for s_ in seqs if s_)
+                if extra:
+                    ctx.bad(rule, f"{fn}:unlisted@{extra[0][0][0]}", f"{fn} with consumed token {K} parses an operand itself ({extra}): not in the documented table", b.span)
     ctx.floor(rule, n_sites, 20, "operand-parse call sites checked")
     # every call to expr/parse_dot/projection_rhs anywhere in the parser must be covered by the table
     covered_fns = {P + k[0] for k in OPERAND_TABLE} | {P + "led", P + "nud"}
